@@ -40,9 +40,17 @@ def run_one_shard(prop, spec, workdir, idx, timeout):
     with open(sp, "w") as f:
         f.write(jdump(spec))
     t0 = time.time()
+    env = dict(os.environ)
+    # hash-order diversity: in the thorough tier (or with VK_HASHSEEDS=1) every odd shard runs under its own PYTHONHASHSEED, so
+    # that behaviour depending on the iteration order of sets of names/fluents/objects is exercised; the seed is stored in
+    # every witness (vk.shard) and --replay re-executes itself under it. Even shards keep PYTHONHASHSEED=0.
+    hs_mode = os.environ.get("VK_HASHSEEDS", "auto")
+    if hs_mode != "0" and idx % 2 == 1 and (hs_mode == "1" or spec.get("tier") == "thorough"):
+        env["PYTHONHASHSEED"] = str(1 + (idx * 7919 + int(spec.get("seed", 0) or 0) * 104729) % 99991)
     try:
         p = subprocess.run(
             [sys.executable, "-m", "vk.shard", prop, sp, op],
+            env=env,
             timeout=timeout,
             stdout=subprocess.PIPE,
             stderr=subprocess.PIPE,
@@ -203,6 +211,10 @@ def main():
     if a.replay:
         with open(a.replay) as f:
             w = json.load(f)
+        hs = str(w["witness"].get("pyhashseed", "0"))
+        if os.environ.get("PYTHONHASHSEED", "0") != hs:
+            os.environ["PYTHONHASHSEED"] = hs
+            os.execv(sys.executable, [sys.executable, "-m", "vk.run"] + sys.argv[1:])
         res = Result(prop)
         os.environ["VK_VERBOSE"] = "1"
         mod.replay(w["witness"], res)
